@@ -6,4 +6,12 @@ import "seatalint/internal/core"
 // Registry maps a property id to its check.
 var Registry = map[string]func(*core.Run){}
 
-func register(id string, f func(*core.Run)) { Registry[id] = f }
+// curWorld is the world of the run in progress (for helpers that have no Run at hand, e.g. origin).
+var curWorld *core.World
+
+func register(id string, f func(*core.Run)) {
+	Registry[id] = func(r *core.Run) {
+		curWorld = r.W
+		f(r)
+	}
+}
